@@ -163,8 +163,12 @@ func (f *frame) specExpr(e SExpr, env *specEnv) sval {
 	case *SIndex:
 		base := f.specExpr(x.X, env)
 		idx := f.specIndexVal(x.I, env)
+		if base.typ == nil && base.e != nil && base.e.Sort().IsArray() {
+			// a ghost sequence (SMT array value)
+			return sval{e: Select(base.e, idx), typ: types.Typ[types.Uint8]}
+		}
 		mem, ptr, elem := f.specElems(base, env)
-		return sval{e: Select(mem, th.AAdd(ptr, idx)), typ: elem}
+		return sval{e: Select(mem, th.AIdx(ptr, idx)), typ: elem}
 	case *SSlice:
 		base := f.specExpr(x.X, env)
 		_, ptr, elem := f.specElems(base, env)
@@ -364,6 +368,9 @@ func (f *frame) specObject(obj types.Object, env *specEnv) sval {
 		}
 	case *types.Var:
 		name := "G_" + o.Pkg().Name() + "." + o.Name()
+		if id, ok := knownErrorGlobals[o.Pkg().Name()+"."+o.Name()]; ok {
+			return sval{e: th.AddrLit(id), typ: o.Type()}
+		}
 		if _, isStruct := o.Type().Underlying().(*types.Struct); isStruct {
 			return sval{e: th.AddrLit(t.eng.globalID(name)), typ: types.NewPointer(o.Type())}
 		}
@@ -421,6 +428,19 @@ func (f *frame) specField(x *SField, env *specEnv) sval {
 // specLvals: modifies entries  x.f | x.* | x.f.* | g (global)
 func (f *frame) specLvals(e SExpr, env *specEnv) []*lval {
 	t := f.t
+	if c, ok := e.(*SCall); ok && c.Fun == "Xxh" && len(c.Args) == 1 {
+		v := f.specExpr(c.Args[0], env)
+		return []*lval{{kind: lvField, heap: t.ghost("xxhLen", SInt), idx: v.e, typ: types.Typ[types.Int]},
+			{kind: lvField, heap: t.ghost("xxhData", ArrayOf(SInt, SInt)), idx: v.e}}
+	}
+	if c, ok := e.(*SCall); ok && (c.Fun == "In" || c.Fun == "Out") && len(c.Args) == 1 {
+		v := f.specExpr(c.Args[0], env)
+		if c.Fun == "In" {
+			return []*lval{{kind: lvField, heap: t.rdPos(), idx: v.e, typ: types.Typ[types.Int]}}
+		}
+		return []*lval{{kind: lvField, heap: t.wrLen(), idx: v.e, typ: types.Typ[types.Int]},
+			{kind: lvField, heap: t.wrData(), idx: v.e}, {kind: lvField, heap: t.wrFail(), idx: v.e, typ: errorT()}}
+	}
 	if fe, ok := e.(*SField); ok && fe.Name == "*" {
 		base := f.specExpr(fe.X, env)
 		return f.allFields(base.e, base.typ)
@@ -642,6 +662,25 @@ func (f *frame) specCall(x *SCall, env *specEnv) sval {
 		}
 		return sval{e: th.wrap(v.e, ct, false), typ: ct}
 	}
+	if strings.HasPrefix(x.Fun, "as_") && len(x.Args) == 1 {
+		// as_T(iface): the *T held by an interface value (meaningful when its dynamic type is *T)
+		var pkg *types.Package
+		if env.fn != nil && env.fn.Pkg != nil {
+			pkg = env.fn.Pkg.Pkg
+		} else if env.fn != nil && env.fn.Parent() != nil {
+			pkg = env.fn.Parent().Pkg.Pkg
+		}
+		if pkg != nil {
+			if obj := pkg.Scope().Lookup(strings.TrimPrefix(x.Fun, "as_")); obj != nil {
+				pt := types.NewPointer(obj.Type())
+				return sval{e: t.unboxPtr(arg(0).e, t.eng.typeID(pt)), typ: pt}
+			}
+		}
+		specFail("unknown type in %s", x.Fun)
+	}
+	if x.Fun == "is_nil_iface" {
+		return sval{e: Eq(arg(0).e, th.AddrLit(0)), typ: boolT}
+	}
 	switch x.Fun {
 	case "len":
 		return sval{e: f.specLen(arg(0)), typ: intT}
@@ -705,8 +744,38 @@ func (f *frame) specCall(x *SCall, env *specEnv) sval {
 			off = f.specIndexVal(x.Args[1], env)
 		}
 		return sval{e: f.leLoad(mem, th.AAdd(ptr, off), n), typ: map[int]types.Type{2: types.Typ[types.Uint16], 4: types.Typ[types.Uint32], 8: types.Typ[types.Uint64]}[n]}
+	case "inpos":
+		return sval{e: Select(f.specCell(t.rdPos(), env), arg(0).e), typ: intT}
+	case "inlen":
+		return sval{e: Select(f.specCell(t.rdLen(), env), arg(0).e), typ: intT}
+	case "inerr":
+		return sval{e: Select(f.specCell(t.rdErr(), env), arg(0).e), typ: errorT()}
+	case "xlen":
+		return sval{e: Select(f.specCell(t.ghost("xxhLen", SInt), env), arg(0).e), typ: intT}
+	case "xdata":
+		return sval{e: Select(f.specCell(t.ghost("xxhData", ArrayOf(SInt, SInt)), env), arg(0).e)}
+	case "indata":
+		return sval{e: Select(f.specCell(t.rdData(), env), arg(0).e)}
+	case "outdata":
+		return sval{e: Select(f.specCell(t.wrData(), env), arg(0).e)}
+	case "inbyte":
+		return sval{e: Select(Select(f.specCell(t.rdData(), env), arg(0).e), f.specIndexVal(x.Args[1], env)), typ: types.Typ[types.Uint8]}
+	case "outlen":
+		return sval{e: Select(f.specCell(t.wrLen(), env), arg(0).e), typ: intT}
+	case "outbyte":
+		return sval{e: Select(Select(f.specCell(t.wrData(), env), arg(0).e), f.specIndexVal(x.Args[1], env)), typ: types.Typ[types.Uint8]}
+	case "outerr":
+		return sval{e: Select(f.specCell(t.wrFail(), env), arg(0).e), typ: errorT()}
 	case "errIs":
 		return sval{e: mk("errIs", SBool, arg(0).e, arg(1).e), typ: boolT}
+	case "freshobj":
+		// freshobj(p): the object was allocated during the call / function
+		v := arg(0)
+		saved := env.inOld
+		env.inOld = true
+		top := f.specCell(t.objTop(), env)
+		env.inOld = saved
+		return sval{e: th.ALe(top, t.rootOfID(v.e)), typ: boolT}
 	case "fresh":
 		// fresh(s): the slice lies in memory allocated during the call/function
 		v := arg(0)
@@ -715,7 +784,12 @@ func (f *frame) specCall(x *SCall, env *specEnv) sval {
 		env.inOld = true
 		top := f.specCell(t.allocTop(), env)
 		env.inOld = saved
-		return sval{e: th.ALe(top, p), typ: boolT}
+		// allocated during the call: above the old allocation top and below the new one
+		hi := th.AAdd(p, f.specLen(v))
+		if _, ok := v.typ.Underlying().(*types.Slice); ok {
+			hi = th.AAdd(p, th.SCap(v.e))
+		}
+		return sval{e: And(th.ALe(top, p), th.ALe(hi, f.specCell(t.allocTop(), env))), typ: boolT}
 	}
 	// spec-library function
 	thKey := "|int"
@@ -858,8 +932,17 @@ func autoPatterns(body Expr, bound string) [][]Expr {
 		switch x := e.(type) {
 		case *App:
 			if x.Op == "select" {
-				// only bare-variable indices: arithmetic inside a trigger causes matching loops
-				if v, ok := x.Args[1].(*Var); !ok || v.Name != bound {
+				// the bound variable must occur bare, or bare as the index of idx(base, j) with a
+				// base that does not mention it: arithmetic inside a trigger causes matching loops
+				okPat := false
+				if v, ok := x.Args[1].(*Var); ok && v.Name == bound {
+					okPat = true
+				} else if ia, ok := x.Args[1].(*App); ok && ia.Op == "idx" {
+					if v, ok := ia.Args[1].(*Var); ok && v.Name == bound && !mentions(ia.Args[0]) {
+						okPat = true
+					}
+				}
+				if !okPat || mentions(x.Args[0]) {
 					for _, a := range x.Args {
 						walk(a)
 					}
